@@ -304,8 +304,20 @@ def run_model(exe, cases_sx, timeout=1800):
     """cases_sx: list of strings. Returns list of parsed outputs."""
     inp = ("\n".join(cases_sx) + "\n").encode()
     env = dict(os.environ)
-    p = subprocess.run(["bash", "-c", f"ulimit -s unlimited 2>/dev/null; exec {exe}"], input=inp,
-                       stdout=subprocess.PIPE, stderr=subprocess.PIPE, timeout=timeout, env=env)
+    # stdin from a regular file: OCaml's input_line is ~10x slower on a pipe for long lines
+    os.makedirs(WORK, exist_ok=True)
+    tmp = os.path.join(WORK, f"cases_{os.getpid()}_{os.path.basename(exe)}.sx")
+    with open(tmp, "wb") as fp:
+        fp.write(inp)
+    try:
+        with open(tmp, "rb") as fin:
+            p = subprocess.run(["bash", "-c", f"ulimit -s unlimited 2>/dev/null; exec {exe}"], stdin=fin,
+                               stdout=subprocess.PIPE, stderr=subprocess.PIPE, timeout=timeout, env=env)
+    finally:
+        try:
+            os.unlink(tmp)
+        except OSError:
+            pass
     lines = p.stdout.decode().splitlines()
     if p.returncode != 0 or len(lines) != len(cases_sx):
         raise RuntimeError(f"model driver failed rc={p.returncode} lines={len(lines)}/{len(cases_sx)}: "
